@@ -53,25 +53,76 @@ def _param_written(f, name):
     return None
 
 
+def _refreshes(prog, g, list_f, seen):
+    """does g (or a member of the same class it calls on *this) move / insert an entry at the front of the recency list?"""
+    if g.usr in seen:
+        return False
+    seen.add(g.usr)
+    for n in g.walk():
+        if not (n.is_call() and n.callee):
+            continue
+        obj = n.call_object()
+        nm = (n.callee.get("qn") or "").rsplit("::", 1)[-1]
+        if obj is not None:
+            o = obj.strip_all()
+            if o.k == "MemberExpr" and o.decl and o.decl.get("n") in list_f and nm in ("splice", "push_front", "emplace_front"):
+                return True
+            if o.k == "CXXThisExpr" and n.callee.get("cls") == g.cls:
+                h = prog.functions.get(n.callee["usr"])
+                if h is not None and _refreshes(prog, h, list_f, seen):
+                    return True
+    return False
+
+
+def _removes_pair(prog, g, list_f, map_f, seen):
+    """does g (or a member helper it calls on *this) remove an entry from both the list and the map?"""
+    if g.usr in seen:
+        return False
+    seen.add(g.usr)
+    eff = _container_effects(g, list_f, map_f)
+    if any(d < 0 and c == "list" for (_, c, d) in eff) and any(d < 0 and c == "map" for (_, c, d) in eff):
+        return True
+    for n in g.walk():
+        if n.k == "CXXMemberCallExpr" and n.callee and n.callee.get("cls") == g.cls and n.call_object() is not None \
+                and n.call_object().strip_all().k == "CXXThisExpr":
+            h = prog.functions.get(n.callee["usr"])
+            if h is not None and _removes_pair(prog, h, list_f, map_f, seen):
+                return True
+    return False
+
+
 def rule_K1(prog, fixture=False):
     res = RuleResult("K1", "in create_fft_plan/create_rfft_plan the key of every cache operation, the factory argument and the "
                            "small-plan argument are the unmodified length parameter; the value put into the cache is the plan the "
                            "factory built for that key; plans are handed out and held as std::shared_ptr by value")
     found = 0
-    for qn, base in FACTORIES.items():
-        fs = prog.funcs_named(qn)
-        if not fs:
-            res.broken.append("anchor vanished: %s is not defined" % qn)
+    # every function that operates an LRUCache (the two factories, or a helper they share)
+    users = []
+    for f in sorted(prog.functions.values(), key=lambda f: (f.file, f.line, f.name)):
+        if (f.cls or "").startswith("dsplib::LRUCache<") or f.file.endswith("coverage.cc") or f.get("lambda"):
             continue
-        f = fs[0]
+        ops = []
+        for n in f.walk():
+            if n.is_call() and n.callee and n.callee.get("cls", "").startswith("dsplib::LRUCache<") and _short(n.callee.get("qn")) in CACHE_METHODS:
+                ops.append((n, _short(n.callee.get("qn"))))
+        if ops:
+            users.append((f, ops))
+    user_key = {}
+    for (f, cache_calls) in users:
         found += 1
         where = "%s:%d" % (prog.rel(f.file), f.line)
-        key0 = "K1:" + qn
-        if not f.params:
-            res.broken.append("anchor vanished: %s has no parameter" % qn)
+        key0 = "K1:" + f.qn
+        int_params = [p["n"] for p in f.params if p.get("tc") == "int"]
+        pn = None
+        for cand in int_params:
+            if all(n.call_args() and _is_param(n.call_args()[0], cand) for (n, _) in cache_calls):
+                pn = cand
+        if pn is None:
+            pn = int_params[0] if int_params else None
+        if pn is None:
+            res.add(key0 + ":cache-key", UNMODELLED, where, "%s cache key" % f.short, "no integer parameter that could be the key", func=f.name)
             continue
-        pn = f.params[0]["n"]
-        # return type
+        user_key[f.usr] = (f, pn)
         rt = f.get("ret", "")
         if rt.startswith("std::shared_ptr<") and not rt.endswith("&") and not rt.endswith("*"):
             res.add(key0 + ":returns-shared", DISCHARGED, where, "%s return type" % f.short, "returns %s by value" % rt, func=f.name)
@@ -84,22 +135,6 @@ def rule_K1(prog, fixture=False):
                     "the length parameter is modified (%s) before it is used as cache key / factory argument" % w.text(), func=f.name)
         else:
             res.add(key0 + ":key-unmodified", DISCHARGED, where, "%s key" % f.short, "parameter '%s' is never written" % pn, func=f.name)
-        cache_calls, factory_calls, ctor_calls = [], [], []
-        for n in f.walk():
-            if not (n.is_call() and n.callee):
-                continue
-            ce = n.callee
-            cls = ce.get("cls", "")
-            nm = _short(ce.get("qn"))
-            if cls.startswith("dsplib::LRUCache<") and nm in CACHE_METHODS:
-                cache_calls.append((n, nm))
-            elif ce.get("repo") and n.k == "CallExpr" and re.search(r"_get_r?fft_plan$", ce.get("qn", "")):
-                factory_calls.append(n)
-            elif n.k == "CallExpr" and ce.get("qn", "").startswith("std::make_shared"):
-                ctor_calls.append(n)
-        if not cache_calls:
-            res.broken.append("anchor vanished: %s performs no LRUCache operation" % qn)
-            continue
         ops = {nm for (_, nm) in cache_calls}
         bad = [(n, nm) for (n, nm) in cache_calls if not (n.call_args() and _is_param(n.call_args()[0], pn))]
         if bad:
@@ -107,51 +142,84 @@ def rule_K1(prog, fixture=False):
             res.add(key0 + ":cache-key", VIOLATED, "%s:%d" % (prog.rel(f.file), n.line), "%s cache key" % f.short,
                     "cache.%s is keyed by %s, not by the requested length '%s': lookups and insertions disagree" % (nm, n.call_args()[0].text() if n.call_args() else "?", pn),
                     func=f.name)
-        elif not {"get", "put"} <= ops:
+        elif "put" not in ops or not ({"get", "find", "operator[]", "at"} & ops):
             res.add(key0 + ":cache-key", UNMODELLED, where, "%s cache key" % f.short, "cache operations found: %s" % sorted(ops), func=f.name)
         else:
             res.add(key0 + ":cache-key", DISCHARGED, where, "%s cache key" % f.short,
                     "%d cache operations (%s) all keyed by '%s'" % (len(cache_calls), ", ".join(sorted(ops)), pn), func=f.name)
-        badf = [n for n in factory_calls + ctor_calls if not (n.call_args() and all(_is_param(a, pn) for a in n.call_args()))]
-        if badf:
-            n = badf[0]
-            res.add(key0 + ":factory-arg", VIOLATED, "%s:%d" % (prog.rel(f.file), n.line), "%s plan construction" % f.short,
-                    "%s builds a plan for a length other than the requested '%s'" % (n.text(), pn), func=f.name)
-        elif factory_calls:
-            res.add(key0 + ":factory-arg", DISCHARGED, where, "%s plan construction" % f.short,
-                    "%d construction call(s) receive '%s'" % (len(factory_calls) + len(ctor_calls), pn), func=f.name)
-        else:
-            res.add(key0 + ":factory-arg", UNMODELLED, where, "%s plan construction" % f.short, "no factory call recognised", func=f.name)
-        # value put == the plan built by the factory
+        # the value that is put: where does it come from?
         puts = [n for (n, nm) in cache_calls if nm == "put"]
-        okput = True
-        why = ""
-        for p in puts:
-            args = p.call_args()
+        producers = []
+        okput, why = True, ""
+        for p_ in puts:
+            args = p_.call_args()
             if len(args) < 2:
                 okput, why = False, "put with %d arguments" % len(args)
                 continue
             v = args[1].strip_all()
             while v.k == "CXXConstructExpr" and len(v.c) == 1:
                 v = v.c[0].strip_all()
+            src = v
             if v.k == "DeclRefExpr" and v.decl.get("k") == "local":
-                defs = [d for d in f.walk() if d.k == "VarDecl" and d.decl["id"] == v.decl["id"]]
-                inits = [d for d in defs if d.c]
-                from_factory = inits and any(x.id in [c.id for c in factory_calls] for x in inits[0].walk())
+                defs = [d for d in f.walk() if d.k == "VarDecl" and d.decl["id"] == v.decl["id"] and d.c]
                 reassigned = any(n.k in ("BinaryOperator", "CXXOperatorCallExpr") and n.op == "=" and n.c and
-                                 any(x.k == "DeclRefExpr" and x.decl and x.decl.get("id") == v.decl["id"] for x in (n.c[0] if n.k == "BinaryOperator" else n.c[1]).walk())
-                                 for n in f.walk())
-                if not from_factory:
-                    okput, why = False, "the value put into the cache (%s) is not the plan built by the factory" % v.text()
-                elif reassigned:
-                    okput, why = False, "the plan variable %s is reassigned between construction and insertion" % v.text()
-            elif any(v.id == c.id or any(x.id == c.id for x in v.walk()) for c in factory_calls):
-                pass
+                                 (n.c[0] if n.k == "BinaryOperator" else n.c[1]).strip_all().k == "DeclRefExpr" and
+                                 (n.c[0] if n.k == "BinaryOperator" else n.c[1]).strip_all().decl.get("id") == v.decl["id"] for n in f.walk())
+                if len(defs) != 1 or reassigned:
+                    okput, why = False, "the plan variable %s is not a single-assignment result of the factory" % v.text()
+                    continue
+                src = defs[0].c[0].strip_all()
+                while src.k == "CXXConstructExpr" and len(src.c) == 1:
+                    src = src.c[0].strip_all()
+            if src.is_call():
+                producers.append(src)
             else:
-                okput, why = False, "the value put into the cache (%s) is not the plan built by the factory" % v.text()
+                okput, why = False, "the value put into the cache (%s) is not the result of a plan construction call" % v.text()
+        small = [n for n in f.walk() if n.k == "CallExpr" and n.callee and n.callee.get("qn", "").startswith("std::make_shared")]
+        badf = [n for n in producers + small if not (n.call_args() and all(_is_param(a, pn) for a in n.call_args()))]
+        if badf:
+            n = badf[0]
+            res.add(key0 + ":factory-arg", VIOLATED, "%s:%d" % (prog.rel(f.file), n.line), "%s plan construction" % f.short,
+                    "%s builds a plan for a length other than the requested '%s'" % (n.text(), pn), func=f.name)
+        elif producers:
+            res.add(key0 + ":factory-arg", DISCHARGED, where, "%s plan construction" % f.short,
+                    "%d construction call(s) receive '%s'" % (len(producers) + len(small), pn), func=f.name)
+        else:
+            res.add(key0 + ":factory-arg", UNMODELLED, where, "%s plan construction" % f.short, "no construction call recognised", func=f.name)
         if puts:
             res.add(key0 + ":put-value", DISCHARGED if okput else VIOLATED, "%s:%d" % (prog.rel(f.file), puts[0].line),
-                    "%s cached value" % f.short, "the plan built by the factory for '%s' is what is inserted" % pn if okput else why, func=f.name)
+                    "%s cached value" % f.short, "the plan built for '%s' is what is inserted" % pn if okput else why, func=f.name)
+    # the public factories reach a cache user with their own, unmodified length
+    for qn, base in FACTORIES.items():
+        fs = prog.funcs_named(qn)
+        if not fs:
+            res.broken.append("anchor vanished: %s is not defined" % qn)
+            continue
+        f = fs[0]
+        if f.usr in user_key:
+            continue
+        pn = f.params[0]["n"] if f.params else None
+        linked = None
+        for n in f.walk():
+            if n.is_call() and n.callee and n.callee.get("usr") in user_key:
+                g, gk = user_key[n.callee["usr"]]
+                gi = [p["n"] for p in g.params].index(gk)
+                args = n.call_args()
+                linked = (n, gi < len(args) and _is_param(args[gi], pn))
+        key0 = "K1:" + qn
+        where = "%s:%d" % (prog.rel(f.file), f.line)
+        if linked is None:
+            res.broken.append("anchor vanished: %s performs no LRUCache operation and calls no function that does" % qn)
+        elif linked[1] and _param_written(f, pn) is None:
+            res.add(key0 + ":cache-key", DISCHARGED, where, "%s cache key" % f.short,
+                    "hands its unmodified length '%s' to %s" % (pn, linked[0].callee.get("name")), func=f.name)
+        else:
+            res.add(key0 + ":cache-key", VIOLATED, "%s:%d" % (prog.rel(f.file), linked[0].line), "%s cache key" % f.short,
+                    "%s is called with a key other than the requested length '%s'" % (linked[0].callee.get("name"), pn), func=f.name)
+        for n in [n for n in f.walk() if n.k == "CallExpr" and n.callee and n.callee.get("qn", "").startswith("std::make_shared")]:
+            if not (n.call_args() and all(_is_param(a, pn) for a in n.call_args())):
+                res.add(key0 + ":factory-arg", VIOLATED, "%s:%d" % (prog.rel(f.file), n.line), "%s plan construction" % f.short,
+                        "%s builds a plan for a length other than the requested '%s'" % (n.text(), pn), func=f.name)
     # K1c: the cache hands out no mutable access to a slot, and nobody keeps a reference into it
     for cn, cj in sorted(prog.classes.items()):
         if not cn.startswith("dsplib::LRUCache<"):
@@ -225,13 +293,7 @@ def rule_K1(prog, fixture=False):
                 continue
             key = "K1:recency:%s::%s" % (cn, g.qn.rsplit("::", 1)[-1])
             where = "%s:%d" % (prog.rel(g.file), g.line)
-            refresh = False
-            for n in g.walk():
-                if n.is_call() and n.callee and n.call_object() is not None:
-                    o = n.call_object().strip_all()
-                    nm = (n.callee.get("qn") or "").rsplit("::", 1)[-1]
-                    if o.k == "MemberExpr" and o.decl and o.decl.get("n") in list_f and nm in ("splice", "push_front", "emplace_front"):
-                        refresh = True
+            refresh = _refreshes(prog, g, list_f, set())
             if refresh:
                 res.add(key, DISCHARGED, where, g.short, "a lookup that returns a stored value moves the entry to the front of the recency list")
             else:
@@ -473,6 +535,12 @@ def rule_K3(prog, fixture=False):
             inside = [(x, cont, d) for (x, cont, d) in eff if then is not None and any(a.id == then.id for a in x.ancestors())]
             if any(d < 0 and cont == "list" for (_, cont, d) in inside) and any(d < 0 and cont == "map" for (_, cont, d) in inside):
                 ok = n
+            elif then is not None and list_f and map_f:
+                for x in then.walk():
+                    if x.k == "CXXMemberCallExpr" and x.callee and x.callee.get("cls") == f.cls:
+                        h = prog.functions.get(x.callee["usr"])
+                        if h is not None and _removes_pair(prog, h, list_f[0], map_f[0], set()):
+                            ok = n
         if ok is not None:
             res.add(key, DISCHARGED, "%s:%d" % (prog.rel(f.file), ok.line), "%s eviction" % f.short,
                     "evicts a list/map pair when %s" % ok.role("cond").text(), func=f.name)
